@@ -565,8 +565,8 @@ def finish(prop, level, results, args, t0, *, design_ref='', assumptions=(), bou
           % (prop, args.tier, len(results), cov['discharged'], cov['obligations'], len(inconclusive), len(known_hits),
              len(violations), cov['canaries_satisfiable'], cov['canaries'], cov['traces_validated_against_impl'],
              cov['solver_time_s'], wall))
+    if violations:
+        return 1                 # replayed violations stand, whatever else went wrong elsewhere in the run (harness errors are printed above)
     if errors:
         return 2
-    if violations:
-        return 1
     return 0
